@@ -71,7 +71,7 @@ CFG = dict(
           "non-zero values in every field; (27 fields: all nine kinds at top level, nested and nested two deep, both tag syntaxes; 11 fields "
           "without tags; 10 fields with empty-name tags `,33,` `||def|` `|`, extra separators in the usage, an embedded struct, json tags "
           "incl. renamed keys and \"-\"); the tag text, group path and Go name of every field are reported and split by the MODEL; every field x every combination of (cli, env, JSON) mentioning it x JSON carrier (file via -config, "
-          "CFG_CONFIG_B64, both, none) with the other fields random; targeted shapes (env set but empty, cli/env text equal to the "
+          "CFG_CONFIG_B64, both, none) with the other fields random; carriers whose document is empty / blank / not JSON / `{}` / `null` (CFG_CONFIG_B64 also: not base64) x which carriers exist, the other carrier holding a real object with non-default values (an error is accepted for a malformed document; a nil return is judged with the file named by -config as THE JSON source mentioning nothing); repeated flag whose last occurrence spells the default; targeted shapes (env set but empty, cli/env text equal to the "
           "default's text while JSON differs, explicit empty cli value); JSON \"\" for string/[]byte and JSON null (= not mentioned; for []byte = nil); "
           "-help in several spellings with ShowUsage() observed; histories of 2-3 Parse calls on ONE FlagSet (a first call that fails after recording "
           "mentions — undefined flag, missing argument, malformed token, missing -config file, unparsable text — or succeeds, then calls with their own "
